@@ -110,7 +110,9 @@ def build():
             na.append({"property_id": pid, "reason": NOT_YET})
     return {
         "version": 1,
-        "setup_cmd": "/venv/bin/python -c 'import hypothesis' 2>/dev/null || /venv/bin/pip install --no-index --find-links /opt/veriftools/wheels hypothesis",
+        "setup_cmd": "(/venv/bin/python -c 'import hypothesis' 2>/dev/null || /venv/bin/pip install --no-index --find-links /opt/veriftools/wheels hypothesis) && "
+                     "(PYTHONPATH=/verif/.deps /venv/bin/python -c 'import atheris' 2>/dev/null || "
+                     "/venv/bin/pip install -q --no-index --find-links /opt/veriftools/wheels --target /verif/.deps atheris || true)",
         "hooks": {
             "guard": "TRACKLIB_VERIF",
             "enable": "no source hooks: every property is observable through the public API; checks import tracklib from /repo's working tree (sys.path), nothing to build",
@@ -122,7 +124,7 @@ def build():
             "name": "vt", "path": "/verif/vt",
             "serves_properties": [c["property_id"] for c in checks],
             "kind_free_text": "property-based testing: Hypothesis-generated and exhaustively enumerated cases against independent reference oracles; "
-                              "seeded by VERIF_SEED, sharded over 16 processes, shrunk failures become replay files",
+                              "seeded by VERIF_SEED, sharded over 16 processes, shrunk failures become replay files; thorough tier adds a coverage-guided stage (atheris/libFuzzer driving the same Hypothesis tests, tracklib instrumented) for the sub-checks listed in a module's FUZZ",
         }],
         "checks": checks,
         "not_applicable": na,
